@@ -187,6 +187,14 @@ class Chain:
         self.kind = ''
         self.view_begin = 0      # begin of the view the LAST accessor is called on
         self.steps = []          # (kind, needs_end_of_step, view_begin)
+        self.views = []          # begin of every view the chain derives (also inside size computations)
+
+    def view(self, p):
+        self.views.append(p)
+        return p
+
+    def past_end(self, n):
+        return any(p > n for p in self.views)
 
     def need(self, end):
         self.needs_end = max(self.needs_end, end)
@@ -206,6 +214,7 @@ class Spec:
         self.L = len(img)
         hl = [l for l in m['hdrLeaves'] if l['path'] == ['blockLength']][0]
         self.blOff, self.blSize = hl['off'], hl['size']
+        self.cur = Chain()
 
     def rd(self, pos, w):
         if pos + w > self.L:
@@ -214,6 +223,7 @@ class Spec:
 
     # ---- sizes: (end position, end of the bytes that must be readable)
     def size_data(self, d, p):
+        self.cur.view(p)
         n = self.rd(p, d['lenSize'])
         return p + d['lenSize'] + n, p + d['lenSize']
 
@@ -229,6 +239,7 @@ class Spec:
         return p, need
 
     def size_group(self, g, p):
+        self.cur.view(p)
         dim = g['dim']
         need = p + dim['size']
         if need > self.L:
@@ -239,6 +250,7 @@ class Spec:
             return p + dim['size'] + num * bl, need
         q = p + dim['size']
         for _ in range(num):
+            self.cur.view(q)
             end, nd = self.size_level(g['level'], q, bl)
             # stepping over an entry requires the whole entry inside the buffer
             need = max(need, nd, end)
@@ -452,8 +464,11 @@ class Spec:
             ch.kind = kind_name(pos, st)
             ch.view_begin = view_begin(pos)
             before = ch.needs_end
+            self.cur = ch
             try:
                 nxt = self.advance(pos, st, ch)
+                if nxt is not None and nxt[0] not in ('msg', 'msghdr'):
+                    ch.view(nxt[2])
             except Beyond:
                 ch.need(INF)
                 nxt = lost_next
@@ -467,6 +482,7 @@ class Spec:
         """position after `steps` (numbers known) or raise Beyond"""
         pos = ('msg',)
         ch = Chain()
+        self.cur = ch
         for st in steps:
             pos = self.advance(pos, st, ch)
         return pos
